@@ -321,7 +321,7 @@ func ParseDelimiterPositions(s string) ([]int, bool, error) {
 			s = s[1:]
 		}
 		err := json.Unmarshal([]byte(s), &delimiterPositions)
-		if err != nil {
+		if err != nil || (delimiterPositions != nil && len(delimiterPositions) < 1) {
 			return delimiterPositions, singleLine, errors.New(fmt.Sprintf("delimiter positions must be %q or a JSON array of integers", DelimitAutomatically))
 		}
 	}
